@@ -258,12 +258,11 @@ SigsFor(slot) == {s \in AllSigs : s[2] \in Accepts(slot)}
 \* leaves at the bottom of the spine to the core atoms
 RECURSIVE Chain(_, _, _, _)
 Chain(parent, slot, d, core) ==
-  LET ok(s) == ~Excluded(parent, slot, s)
-      cands == {s \in SigsFor(parent[4][slot]) : ok(s)}
-      atoms == {<<s[1]>> : s \in {s \in cands : Nullary(s) /\ (core => s \in Core)}}
+  LET cands == {c \in SigsFor(parent[4][slot]) : ~Excluded(parent, slot, c)}
+      atoms == {<<c[1]>> : c \in {a \in cands : Nullary(a) /\ (core => a \in Core)}}
   IN IF d = 0 THEN atoms
-     ELSE atoms \cup UNION { UNION { {Apply(s, i, t) : t \in Chain(s, i, d - 1, core)} : i \in 1..Len(s[4]) }
-                             : s \in {s \in cands : ~Nullary(s)} }
+     ELSE atoms \cup UNION { UNION { {Apply(c, i, u) : u \in Chain(c, i, d - 1, core)} : i \in 1..Len(c[4]) }
+                             : c \in {a \in cands : ~Nullary(a)} }
 
 RootE == CHOOSE s \in GSigs : s[1] = "rootE"
 
@@ -297,16 +296,15 @@ WellSorted(t, slot) ==
      /\ s[2] \in Accepts(slot)
      /\ Len(t) = 1 + Len(s[4])
      /\ \A i \in 1..Len(s[4]) : WellSorted(t[i + 1], s[4][i])
-RECURSIVE Depth(_)
-Depth(t) == IF Len(t) = 1 THEN 0 ELSE 1 + (LET ds == {Depth(t[i]) : i \in 2..Len(t)} IN CHOOSE m \in ds : \A k \in ds : k <= m)
 
 \* every ordered pair of binary-operator precedence levels occurs with the inner operator on the left and on the right
 Levels == {BinTable[i][2] : i \in BinIdx}
-LevelOf(name) == LET i == CHOOSE i \in BinIdx : "bin" \o BinTable[i][1] = name IN BinTable[i][2]
-IsBin(t) == \E i \in BinIdx : t[1] = "bin" \o BinTable[i][1]
-PrecedencePairsCovered ==
-  \A p, q \in Levels : \A side \in {2, 3} :
-     \E t \in ExprChains : IsBin(t) /\ LevelOf(t[1]) = p /\ IsBin(t[side]) /\ LevelOf(t[side][1]) = q
+BinName(i) == "bin" \o BinTable[i][1]
+BinNames == {BinName(i) : i \in BinIdx}
+LevelOf == [n \in BinNames |-> BinTable[CHOOSE i \in BinIdx : BinName(i) = n][2]]
+BinBin == {u \in ExprChains : u[1] \in BinNames}
+CoveredPairs == UNION {{<<LevelOf[u[1]], side, LevelOf[u[side][1]]>> : side \in {k \in {2, 3} : u[k][1] \in BinNames}} : u \in BinBin}
+PrecedencePairsCovered == CoveredPairs = Levels \X {2, 3} \X Levels
 ASSUME NamesUnique
 ASSUME Family = "expr" => PrecedencePairsCovered
 
